@@ -388,11 +388,21 @@ class Gen(object):
         self.cellvars = []
         start = len(self.lines)
         kind = self.kind
+        sig, closed = self.rng.choice((
+            ("", ""), ("", ""), ("", ""),
+            ("p1=None", "p1"), ("*a", "a"), ("**kw", "kw"), ("*a, **kw", "kw"), ("*a, **kw", "a, kw"),
+            ("p1=0, *a, k1=1, **kw", "p1, kw"), ("p1=0, p2=1, *, k1=2", "k1"), ("p1=0, /, p2=1, **kw", "p2, kw"),
+            ("*a, k1=None, **kw", ""),
+        ))
         if kind in ("coro", "agen"):
-            self.emit(0, "async def f%d():" % idx)
+            self.emit(0, "async def f%d(%s):" % (idx, sig))
         elif kind in ("gen", "sync"):
-            self.emit(0, "def f%d():" % idx)
+            self.emit(0, "def f%d(%s):" % (idx, sig))
         hdr = len(self.lines)
+        if closed:
+            # parameters captured by a nested function become cells (they then appear both in
+            # co_varnames and co_cellvars on 3.11+)
+            self.emit(1, "_cp = lambda: (%s,)" % closed)
         if self.pad and idx == 0:
             self.emit(1, "'''Docstring.'''")
             self.emit(1, "_s = 'A' * 300")
